@@ -76,8 +76,10 @@ def _bool_const(o):
 @RS.rule('C05.R1', 'K-GUARD', 'a directory entry is added only if it exists in the scan, is not "." or "..", and matches the component pattern')
 def r1(cx):
     F = cx.F
-    body = F.body(SEARCH_DIR)
+    body = _search_dir_body(F)      # the scan arm extracted into a private helper (fn search_entries) is seen in place
     cx.fn(body.fn)
+    for h in getattr(body, 'inlined_from', None) or []:
+        cx.fn(h)
     du = Q.DefUse(body)
     pcs = Q.find_calls(body, [PUSH_COMPONENT])
     cx.floor(len(pcs), 3, 'push_component calls in search_dir')
@@ -238,7 +240,11 @@ def r2(cx):
                      loc=body.loc(rec[0][1]))
     # the prefix is restored on every exit
     tr = Q.find_calls(body, ['alloc::string::String::truncate'])
-    if not tr or not all(any(body.dominates(b, r) for b, _ in tr) for r in body.return_blocks()):
+    # (every path from the entry - and from each later change of the prefix: the appended '/', the recursive search - to a return
+    # passes a truncate; one truncate before a single return and one truncate per early return are the same thing)
+    tr_blocks = {b for b, _ in tr}
+    after_change = {t['to'] for b, t in slash + rec if t.get('to') is not None}
+    if not tr or Q.must_pass(body, [0] + sorted(after_change), tr_blocks) is not None:
         cx.violation(PUSH_COMPONENT, 'prefix-not-restored', 'the prefix is not truncated back on every exit: sibling entries would be '
                      'appended to a stale prefix', loc=body.loc(body.d))
     # file_exists(): fstatat(AT_FDCWD, prefix, follow symlinks).is_ok()
@@ -483,6 +489,11 @@ def r4(cx):
     ods = F.callers_of(lambda names, t: any(n.endswith('::Open::opendir') for n in names), crates=None)
     for b2, blk, t2 in ods:
         if b2.crate in ('yash_semantics',) and b2.root != SEARCH_DIR:
+            if _private_helper_called_only_from(F, b2.root, {SEARCH_DIR}):
+                # an arm of search_dir extracted into a private method of SearchEnv that nothing else calls: still entered
+                # only through search_dir, hence only on the Glob != Off edge
+                cx.site('opendir in %s, a private helper called only by search_dir, at %s' % (b2.root, b2.loc(t2)))
+                continue
             cx.violation(b2.root, 'caller:opendir', 'yash-semantics opens a directory outside search_dir', loc=b2.loc(t2))
 
 
@@ -650,8 +661,10 @@ def r1b(cx):
     F = cx.F
     fn = [f for f in F.bodies if 'SearchEnv' in f and f.endswith('::search_dir')]
     cx.require(len(fn) == 1, 'SearchEnv::search_dir not found')
-    b = F.bodies[fn[0]]
+    b = _search_dir_body(F) if fn[0] == SEARCH_DIR else F.bodies[fn[0]]     # private helpers (fn search_entries) seen in place
     cx.fn(b.fn)
+    for h in getattr(b, 'inlined_from', None) or []:
+        cx.fn(h)
     du = Q.DefUse(b)
     pushes = [(blk, t) for blk, t in Q.find_calls(b, [_re.compile(r'::push_component$')])
               if 'const true' in [str(x) for x in Q.arg_names(b, du, t)]]
@@ -920,18 +933,76 @@ def r7(cx):
                          'of the directory is not what ends the scan', loc=body.loc(nt))
 
 
+_BRANCH = [re.compile(r'^<core::ops::control_flow::ControlFlow<.*> as core::ops::try_trait::Try>::branch$')]
+
+
+def _plain_local(o):
+    pl = o.get('cp') or o.get('mv') if isinstance(o, dict) else None
+    return pl['l'] if pl is not None and not pl.get('p') else None
+
+
 def _path_returning_non_break(body, start, writes, rets):
     """A path from `start` to a return on which the last value written to the return place is not certainly Break (None if
-    there is none). The state on entry is 'other': a value written before the loop was left does not count."""
+    there is none). The state on entry is 'other': a value written before the loop was left does not count.
+
+    The walk is value-sensitive for ControlFlow temporaries: a local assigned ControlFlow::Break (or the residual of `?`), moved,
+    or passed through Try::branch is known to be Break along the path, and a switch on its discriminant takes the Break arm only.
+    That is how the Break of an extracted helper (`fn search_entries(..) -> ControlFlow<..>`, inlined: its return local is tested
+    by the caller's `?`) is followed to the caller's return instead of being lost at the merge in the helper's return block."""
     from collections import deque
-    first = (start, 'other')
+
+    def is_cf(l):
+        return body.locals[l]['ty'].startswith(_CF)
+    first = (start, 'other', frozenset())
     prev = {first: None}
     q = deque([first])
     while q:
         node = q.popleft()
-        b, st = node
-        for k in writes.get(b, ()):
-            st = k
+        b, st, brk = node
+        brk = set(brk)
+        kinds = list(writes.get(b, ()))
+        discr_of = {}
+        for s in body.blocks[b]['s']:
+            if s['k'] != 'assign':
+                continue
+            lhs, rv = s['lhs'], s['rv']
+            if lhs.get('p'):
+                if lhs['l'] == 0:
+                    st = kinds.pop(0) if kinds else 'other'
+                brk.discard(lhs['l'])
+                continue
+            x = lhs['l']
+            src = _plain_local(rv['o']) if rv['k'] == 'use' else None
+            is_break = (rv['k'] == 'agg' and rv.get('adt') == _CF and rv.get('variant') == 'Break') or (src is not None and src in brk)
+            if rv['k'] == 'discr' and not rv['pl'].get('p'):
+                discr_of[x] = rv['pl']['l']
+            else:
+                discr_of.pop(x, None)
+            if x == 0:
+                k = kinds.pop(0) if kinds else 'other'
+                st = 'break' if is_break else k
+            if is_break:
+                brk.add(x)
+            else:
+                brk.discard(x)
+        t = body.term(b)
+        succs = list(body.succ(b))
+        if t['k'] == 'call' and not t['dest'].get('p'):
+            x = t['dest']['l']
+            a0 = _plain_local(t['a'][0]) if t['a'] else None
+            is_break = is_cf(x) and ((Q.callee_is(t, _BRANCH) and a0 in brk) or Q.callee_is(t, _FROM_RESIDUAL))
+            if x == 0:
+                k = kinds.pop(0) if kinds else 'other'
+                st = 'break' if is_break else k
+            if is_break:
+                brk.add(x)
+            else:
+                brk.discard(x)
+        elif t['k'] == 'switch':
+            d = _plain_local(t['d'])
+            if d in discr_of and discr_of[d] in brk:
+                tmap = {int(v): tb for v, tb in t['ts']}
+                succs = [tmap.get(1, t.get('else'))]          # ControlFlow: Continue = 0, Break = 1
         if b in rets:
             if st != 'break':
                 path = []
@@ -940,10 +1011,13 @@ def _path_returning_non_break(body, start, writes, rets):
                     node = prev[node]
                 return path[::-1]
             continue
-        for s in body.succ(b):
-            if (s, st) not in prev:
-                prev[(s, st)] = node
-                q.append((s, st))
+        nb = frozenset(brk)
+        for s2 in succs:
+            if s2 is None:
+                continue
+            if (s2, st, nb) not in prev:
+                prev[(s2, st, nb)] = node
+                q.append((s2, st, nb))
     return None
 
 
